@@ -46,6 +46,9 @@ func hexOfFloat(f float64) string {
 	return fmt.Sprintf("%016x", math.Float64bits(f))
 }
 
+// configs shared between several places of the running case ({"shared": name, "c": {...}})
+var sharedCfgs map[string]*ucfg.Config
+
 func buildValue(v interface{}) interface{} {
 	if v == nil {
 		return nil
@@ -235,6 +238,22 @@ func buildValue0(j J) interface{} {
 			}
 		}
 		return rv.Interface()
+	}
+	if name, ok := j["shared"].(string); ok {
+		// one Config object used at several places of a case (merged into the root, embedded in an Env config, ...)
+		if cfg := sharedCfgs[name]; cfg != nil {
+			return cfg
+		}
+		cj := j["c"].(map[string]interface{})
+		cfg, err := ucfg.NewFrom(buildValue(cj["v"]), buildOpts(cj["opts"])...)
+		if err != nil {
+			panic("harness: shared config source does not normalize: " + err.Error())
+		}
+		if sharedCfgs == nil {
+			sharedCfgs = map[string]*ucfg.Config{}
+		}
+		sharedCfgs[name] = cfg
+		return cfg
 	}
 	if c, ok := j["c"]; ok {
 		cj := c.(map[string]interface{})
